@@ -341,3 +341,83 @@ META = {
     'assumptions': ['O17.2: Typer::coerce_to_expected_dyn with has_visible_trait_impl on the same environments: EToDyn iff an implementation for exactly the value\'s type is registered', 'outside this claim: that the three lowering routes (direct call, bound-directed call in generic code, dyn vtable) run the selected implementation at run time - that needs the emitted Go to be executed', 'inherent method call forms x.m(a) / T::m(x, a)'],
     'trusted_base': ['mirsym MIR interpreter', 'library models listed per obligation (IndexMap / HashMap / ena union-find)', 'z3'],
 }
+
+# ----------------------------------------------------------------------------- O17.5 the dyn wrapper of (trait, type, method) forwards to the implementation of THAT trait for that type
+def ob_dyn_wrapper_target(r, tier, seed):
+    W = e2.fresh_world(CRATES); E = Env(W); tt = W.tt
+    GOENV = tt.find_adt(['go', 'compile', 'GlobalGoEnv'], 'compiler'); DR = [a for a in tt.by_name['DynRequirements'] if a.crate == 'compiler'][0]
+    GI = tt.find_adt(['goast', 'Item'], 'compiler'); GFN = tt.find_adt(['goast', 'Fn'], 'compiler'); GE = tt.find_adt(['goast', 'Expr'], 'compiler'); GST = tt.find_adt(['goast', 'Stmt'], 'compiler')
+    from mirsym.engine import PySet
+    W.stubs['ty_compact'] = lambda ex, a: mkstr({'TStruct': lambda t: ms.pystr(t.fields[0]), 'TInt32': lambda t: 'int32', 'TBool': lambda t: 'bool'}[E.TY.variants[ex.deref(a[0]).idx].name](ex.deref(a[0])))
+    TRAITS = ['A', 'B', 'Lib::A']; TYPES = ['C', 'D', 'int32']
+    r.bounds = ('go::compile::gen_dyn_helper_fns for one requested vtable (trait, type) with trait in %s and type in %s; every trait declares the methods m and n; the function table of the monomorphised program (mono_funcs) '
+                'holds the implementations trait_impl#<trait>#<type>#<method> of ALL traits for ALL types, inserted in a solver-chosen order (forwards or backwards)' % (TRAITS, TYPES))
+    r.assumptions = ['names::ty_compact (external `pretty` crate) replaced by a stand-in that prints the type name',
+                     'oracle: the wrapper generated for (trait, type, method) calls go_ident(trait_impl_fn_name(trait, type, method)) - the function monomorphisation emits for that implementation (names from the real names::trait_impl_fn_name / go::mangle::go_ident) - whatever other implementations with the same method name or the same receiver type exist',
+                     'the wrapper is found as the generated function whose body is a single return of a call']
+    def fld(adt, agg, n, vi=0): return agg.fields[[f[0] for f in adt.variants[vi].fields].index(n)]
+    def tyv(t): return E.T('TInt32') if t == 'int32' else E.T('TStruct', mkstr(t))
+    def entry(ex):
+        tr = ex.choose([(True, x) for x in TRAITS]); ty = ex.choose([(True, x) for x in TYPES]); back = ex.choose([(True, False), (True, True)])
+        genv = ex.call('env::GlobalTypeEnv::new_empty', []); genv2 = ex.call('env::GlobalTypeEnv::new_empty', [])
+        selfm = lambda: E.T('TFunc', PyVec([E.T('TParam', mkstr('Self'))]), mkbox(E.T('TInt32')))
+        for t_ in TRAITS:
+            E.add_trait(genv, t_, 'm', selfm())
+            te = E.field(E.GE, genv, 'trait_env'); defs = E.field(E.TE, te, 'trait_defs'); td = defs.vals[-1]
+            E.field(E.TD, td, 'methods').keys.append(mkstr('n')); E.field(E.TD, td, 'methods').vals.append(E.scheme(selfm()))
+        monoenv = ex.call('mono::GlobalMonoEnv::from_genv', [genv2]); hm = {0: monoenv}
+        combos = [(t_, y_, m_) for t_ in TRAITS for y_ in TYPES for m_ in ('m', 'n')]
+        names = {}
+        for t_, y_, m_ in (combos[::-1] if back else combos):
+            hh = {0: Agg(E.TI.key, 0, [mkstr(t_)]), 1: tyv(y_), 2: mkstr(m_)}
+            nm = ex.call('names::trait_impl_fn_name', [Ref(hh, 0), Ref(hh, 1), Ref(hh, 2)]); names[(t_, y_, m_)] = ms.pystr(nm)
+            ex.call('mono::GlobalMonoEnv::insert_func', [Ref(hm, 0), nm, E.T('TFunc', PyVec([tyv(y_)]), mkbox(E.T('TInt32')))])
+        liftenv = ex.call('lift::GlobalLiftEnv::from_monoenv', [hm[0]])
+        goenv = Agg(GOENV.key, 0, [genv, liftenv])
+        req = Agg(DR.key, 0, [{'traits': PySet([mkstr(tr)], 'index'), 'vtables': PySet([Agg('tuple', 0, [mkstr(tr), tyv(ty)])], 'index')}[f[0]] for f in DR.variants[0].fields])
+        h = {0: goenv, 1: req}
+        items = ex.call('go::compile::gen_dyn_helper_fns', [Ref(h, 0), Ref(h, 1)])
+        calls = []
+        for it in items.items:
+            if GI.variants[it.idx].name != 'Fn': continue
+            fn = it.fields[0]; stmts = fld(GFN, fn, 'body').fields[0].items
+            if len(stmts) != 1 or GST.variants[stmts[0].idx].name != 'Return' or stmts[0].fields[0].idx != 1: continue
+            e = stmts[0].fields[0].fields[0]
+            if GE.variants[e.idx].name != 'Call': continue
+            f_ = unbox(fld(GE, e, 'func', e.idx))
+            if GE.variants[f_.idx].name == 'Var': calls.append((ms.pystr(fld(GFN, fn, 'name')), ms.pystr(fld(GE, f_, 'name', f_.idx))))
+        want = {}
+        for m_ in ('m', 'n'):
+            hh = {0: mkstr(names[(tr, ty, m_)])}; want[m_] = ms.pystr(ex.call('go::mangle::go_ident', [Ref(hh, 0)]))
+        return tr, ty, back, calls, want
+    res = e2.explore(r, W, entry, [])
+    for p in res:
+        r.cases += 1
+        if p.kind != 'ok':
+            if not any(f.key == 'panic' for f in r.findings): r.findings.append(Finding('panic', 'gen_dyn_helper_fns panics: %s' % str(p.value)[:200], {}, False, 'not replayed'))
+            continue
+        tr, ty, back, calls, want = p.value; r.nontrivial += 1
+        got = sorted(c[1] for c in calls)
+        if got != sorted(want.values()):
+            if r.findings: continue
+            try: ok_, detail = replay_dyn_wrapper()
+            except Exception as e_: ok_, detail = False, 'replay failed: %s' % str(e_)[:200]
+            r.findings.append(Finding('dyn-wrapper-calls-other-impl', 'vtable (%s, %s), function table filled %s: the wrappers call %s, the implementations of %s for %s are %s' % (tr, ty, 'backwards' if back else 'forwards', got, tr, ty, sorted(want.values())), {'trait': tr, 'type': ty}, ok_, detail))
+        elif len(r.samples) < 3: r.samples.append({'trait': tr, 'type': ty, 'wrappers': [list(c) for c in calls]})
+
+def replay_dyn_wrapper():
+    """real CLI: two traits with a method of one name implemented for one type (the other trait first), a call through dyn of the second; the wrapper in the Go text must call the second trait's implementation"""
+    src = ('trait A { fn m(Self) -> int32; }\ntrait B { fn m(Self) -> int32; }\nstruct C { v: int32 }\nimpl A for C { fn m(self: C) -> int32 { 1 } }\nimpl B for C { fn m(self: C) -> int32 { 2 } }\n'
+           'fn main() -> unit { let c = C { v: 0 }; let d: dyn B = c; let e: dyn A = C { v: 1 }; string_println(int32_to_string(B::m(d) + A::m(e))) }\n')
+    d = tempfile.mkdtemp(prefix='vf-c17w-')
+    try:
+        open(os.path.join(d, 'main.gom'), 'w').write(src)
+        out = subprocess.run([build.compiler_bin(), 'run', '--dump-go', os.path.join(d, 'main.gom')], capture_output=True, text=True, timeout=60).stdout
+    finally: shutil.rmtree(d, ignore_errors=True)
+    wr = re.findall(r'func (\w*dyn\w*B\w*)\(self [^)]*\)[^{]*\{\s*return (\w+)\(', out)
+    wrong = [(w, c) for w, c in wr if '_A_' in c and '_B_' not in c]
+    return bool(wrong), 'goml `%s`: dyn wrappers of B in the Go text: %s' % (src.replace('\n', ' | ')[:300], wr)
+
+_c17_obl5 = obligations
+def obligations():
+    return _c17_obl5() + [Ob('O17.5-dyn-wrapper-target', 'the dyn wrapper of (trait, type, method) forwards to the implementation of that trait for that type', ob_dyn_wrapper_target, ('quick', 'thorough'), 3, {})]
